@@ -2102,14 +2102,20 @@ static Value eval_prefix_op(ASTNode *node, Environment *env) {
                         fprintf(stderr, "Error: Division by zero\n");
                         return create_void();
                     }
-                    result = left.as.int_val / right.as.int_val;
+                    /* INT64_MIN / -1 overflows (SIGFPE on x86): integers wrap, so x / -1 is the
+                     * wrapping negation and x % -1 is 0, as in compiled programs */
+                    if (right.as.int_val == -1) {
+                        result = (long long)(0ULL - (unsigned long long)left.as.int_val);
+                    } else {
+                        result = left.as.int_val / right.as.int_val;
+                    }
                     break;
                 case TOKEN_PERCENT:
                     if (right.as.int_val == 0) {
                         fprintf(stderr, "Error: Modulo by zero\n");
                         return create_void();
                     }
-                    result = left.as.int_val % right.as.int_val;
+                    result = (right.as.int_val == -1) ? 0 : left.as.int_val % right.as.int_val;
                     break;
                 default: result = 0;
             }
